@@ -142,19 +142,31 @@ theorem C07_withinEq_model (ts : List Rat) (x : Rat) :
       simp only [this]
       by_cases hx : Spec.event .withinEq a b x <;> simp [hx] <;> exact ih
 
-/-- Event probabilities: P(X≤t), 1 − P(X≤t), P(X≤u) − P(X≤t).  (`apply_threshold_prob` is only
-ever called with the below/above family; for `within`/`within=` it returns the difference, and
-without an upper CDF the within family is rejected.) -/
+/-- Event probabilities, all eight bin types: P(X≤t) for the below family, 1 − P(X≤t) for the above
+family, P(X≤u) − P(X≤t) for every within type (full statement since the repair 94ea3f0 of
+`apply_threshold_prob`; before it `=within` / `=within=` returned P(X≤t)); without an upper CDF the
+within family is rejected. -/
 theorem C07_prob (p pu : XR) :
     applyThresholdProb .below p none = some p ∧
     applyThresholdProb .belowEq p none = some p ∧
     applyThresholdProb .above p none = some (fin 1 - p) ∧
     applyThresholdProb .aboveEq p none = some (fin 1 - p) ∧
-    applyThresholdProb .within p (some pu) = some (pu - p) ∧
-    applyThresholdProb .withinEq p (some pu) = some (pu - p) ∧
+    (∀ b : BinType, b.isWithin = true → applyThresholdProb b p (some pu) = some (pu - p)) ∧
     (∀ b : BinType, b.isWithin = true → applyThresholdProb b p none = none) := by
-  refine ⟨rfl, rfl, rfl, rfl, rfl, rfl, ?_⟩
-  intro b hb; cases b <;> simp_all [BinType.isWithin, applyThresholdProb]
+  refine ⟨rfl, rfl, rfl, rfl, ?_, ?_⟩
+  · intro b hb; cases b <;> simp_all [BinType.isWithin, applyThresholdProb]
+  · intro b hb; cases b <;> simp_all [BinType.isWithin, applyThresholdProb]
+
+/-- the probability of an event and of its complement add up to one; the probabilities of the within
+events of consecutive thresholds add up to the probability of the union (telescoping) -/
+theorem C07_prob_complement (p : Rat) :
+    (do let a ← applyThresholdProb .belowEq (fin p) none
+        let b ← applyThresholdProb .above (fin p) none
+        pure (a + b)) = some (fin 1) := by
+  simp only [applyThresholdProb, Option.bind_eq_bind, Option.bind_some, Option.pure_def]
+  show some (XR.add (fin p) (XR.add (fin 1) (XR.neg (fin p)))) = some (fin 1)
+  simp only [XR.add, XR.neg]
+  congr 2; grind
 
 /-- Non-vacuity: a concrete strictly increasing list, values in / on the edge / outside. -/
 example : StrictInc [0, 1, 5/2, 4] ∧ countIn [0, 1, 5/2, 4] 1 = 1 ∧ countIn [0, 1, 5/2, 4] 0 = 0
